@@ -627,8 +627,8 @@ func (s *Speller) list(els []Expr) {
 	}
 }
 
-// QuoteString spells a string literal; the text must not contain both quote kinds,
-// a backslash, or "#{" when double quotes are chosen.
+// QuoteString spells a string literal; the text must not contain both quote kinds, or "#{" when double quotes
+// are chosen. (A backslash is a character like any other: the language has no escape sequences.)
 func (s *Speller) quoteString(str string) string {
 	q := s.Pol.Quote()
 	if strings.ContainsRune(str, '\'') {
@@ -828,6 +828,10 @@ func (Vast) WS(prev, next string, mayBeEmpty bool) string {
 		n = -n
 	}
 	size := []int{33, 64, 257, 33, 1025, 40}[n%6]
+	switch prev + " " + next {
+	case "not in", "is not", "starts with", "ends with", "divisible by", "same as":
+		size = 1100 // the words of one operator, far apart
+	}
 	b := []byte(strings.Repeat(" ", size))
 	b[size/2] = "\t\n\r "[n%4]
 	b[size-1] = " \t"[n%2]
